@@ -294,18 +294,18 @@ pub enum Exchange {
 	Dropped(TransportError),
 }
 
-/// A port that is free right now and has not been handed out by this process before (several
+/// A port that is free right now and has not been handed out by this process recently (several
 /// runner threads start servers at the same time).
 fn free_port() -> u16 {
 	use std::sync::Mutex;
 	static USED: Mutex<Vec<u16>> = Mutex::new(Vec::new());
-	for _ in 0..200 {
+	for _ in 0..2000 {
 		match TcpListener::bind("127.0.0.1:0").and_then(|l| l.local_addr()) {
 			Ok(a) => {
 				let mut g = USED.lock().unwrap();
-				if g.len() > 4000 {
+				if g.len() > 128 {
 					// only recent hand-outs matter (the window between choosing a port and the bind)
-					g.drain(..2000);
+					g.drain(..64);
 				}
 				if !g.contains(&a.port()) {
 					g.push(a.port());
